@@ -16,7 +16,8 @@ PINS = [('plasTeX/__init__.py', 'numToRoman'), ('plasTeX/__init__.py', 'Counter'
         ('plasTeX/Base/LaTeX/Floats.py', 'Caption'), ('plasTeX/Base/LaTeX/Definitions.py', 'newtheorem'),
         ('plasTeX/Base/LaTeX/Arrays.py', 'Array.EndRow')]
 RULE = ('documents in the article and book classes built from an event grammar: sectioning commands of every level (starred or not) '
-        'against a configured numbering depth of -1..6, equation, eqnarray rows with \\nonumber, eqnarray*, figure/table captions, '
+        'against a configured numbering depth of -1..6, equation, eqnarray rows with \\nonumber, eqnarray*, captions in figure/table and the '
+        'starred floats figure*/table* (same counters), '
         '\\newtheorem (own counter, shared counter, numbered within any existing counter, starred) and the environments it makes, '
         '\\newcounter[within], \\setcounter/\\addtocounter/\\stepcounter on class and user counters, enumerate/itemize nesting with items, '
         '\\appendix, and \\arabic/\\roman/\\Roman/\\alph/\\Alph/\\the prints; a random structured stream, an exhaustive stream of all '
@@ -67,7 +68,8 @@ def ev_source(e):
     if k == 'eqnarray*':
         return '\\begin{eqnarray*}a&=&b\\\\ c&=&d\\end{eqnarray*}\n'
     if k == 'cap':
-        env = 'table' if e[1] else 'figure'
+        # e[2]: the starred (two-column) float: LaTeX numbers figure* / table* with the counters of figure / table
+        env = ('table' if e[1] else 'figure') + ('*' if len(e) > 2 and e[2] else '')
         return '\\begin{%s}\\caption{C}\\end{%s}\n' % (env, env)
     if k == 'thm':
         return '\\begin{%s}t\\end{%s}\n' % (e[1], e[1])
@@ -360,6 +362,8 @@ def tags(case, io):
         t.append('ev:nonumber')
     if any(e[0] == 'newthm' and e[3] for e in case['events']):
         t.append('ev:newthm-within')
+    if any(e[0] == 'cap' and len(e) > 2 and e[2] for e in case['events']):
+        t.append('ev:cap-starred-float')
     if any(e[0] == 'newthm' and e[2] for e in case['events']):
         t.append('ev:newthm-shared')
     if isinstance(io, list) and io[:1] != [0]:
@@ -443,7 +447,7 @@ class Gen:
         elif x < 0.38:
             self.ev.append(['eqnarray*'])
         elif x < 0.45:
-            self.ev.append(['cap', r.random() < 0.5])
+            self.ev.append(['cap', r.random() < 0.5, r.random() < 0.35])
         elif x < 0.58:
             if self.envs and r.random() < 0.8:
                 self.ev.append(['thm', r.choice(self.envs)[0]])
@@ -505,7 +509,7 @@ def rand_depth(rng, cls):
 def small_alphabet(cls):
     a = [['sec', 'section', False], ['sec', 'section', True], ['sec', 'subsection', False], ['sec', 'subsubsection', False],
          ['eq'], ['thm', 'thm'], ['thm', 'lem'], ['set', 'section', 3], ['set', 'subsection', 2], ['step', 'section'], ['addto', 'thm', 2],
-         ['cap', False], ['appendix']]
+         ['cap', False], ['cap', True, True], ['cap', True], ['cap', False, True], ['appendix']]
     if cls == 1:
         a += [['sec', 'chapter', False], ['sec', 'chapter', True]]
     return a
@@ -617,7 +621,7 @@ def streams(rng, tier, boost):
     for cls in (0, 1):
         alpha = small_alphabet(cls)
         if bound >= 4:
-            alpha = [a for a in alpha if a not in (['cap', False], ['sec', 'chapter', True], ['addto', 'thm', 2], ['set', 'subsection', 2])]
+            alpha = [a for a in alpha if a not in (['cap', False], ['cap', True], ['cap', False, True], ['sec', 'chapter', True], ['addto', 'thm', 2], ['set', 'subsection', 2])]
         for n in range(1, bound + 1):
             for seq in itertools.product(alpha, repeat=n):
                 if sum(1 for e in seq if e[0] == 'appendix') > 1:
